@@ -31,6 +31,8 @@ RULE = (
     "distinct case hash; non-trivial = fewer observed than declared classes, "
     "or the cost-minimal class differs from the arg-max class on some query "
     "point, or no label at all.")
+RULE += (" Further generated dimensions (added while closing seeded "
+         "changes): " + 'every fit-protocol case also as the refit of an object fitted before on another fully labeled set; SklearnClassifier around an estimator the caller trained before wrapping; heterogeneous query batches with extrapolation rows' + ".")
 ASSUMPTIONS = [
     "kernel metric is 'rbf' (positive kernel); other kernels may legitimately "
     "produce negative frequencies",
